@@ -144,3 +144,51 @@ fn c01_k7_day_of_year() {
   assert!(r as i64 == jdn_of(&a) - spec::jdn(a.get_year() as i64, 1, 1), "index in year");
   kani::cover!(r == 354, "k7b reachable");
 }
+
+
+// ---- C06: term index / year carry, independent of the astronomy ---------------------------------
+pub fn stub_calc_qi(_pjd: f64) -> f64 { kani::any() }
+
+#[kani::proof]
+#[kani::stub(alloc::fmt::format, stub_format)]
+#[kani::stub(crate::tyme::util::ShouXingUtil::calc_qi, stub_calc_qi)]
+fn c06_k_from_index() {
+  let year: isize = kani::any();
+  let index: isize = kani::any();
+  kani::assume(year >= 0 && year <= 10000 && index >= -100000 && index <= 100000);
+  let total = (year as i64) * 24 + index as i64;
+  kani::assume(total >= 0);
+  let t = SolarTerm::from_index(year, index);
+  assert!(t.get_year() as i64 == spec::ediv(total, 24), "term year == floor(k/24)");
+  assert!(t.get_index() as i64 == spec::emod(total, 24), "term index == k mod 24");
+  assert!(t.get_size() == 24, "24 terms");
+  kani::cover!(year == 2023 && index == -1, "c06 from_index reachable (negative index)");
+}
+
+#[kani::proof]
+#[kani::stub(alloc::fmt::format, stub_format)]
+#[kani::stub(crate::tyme::util::ShouXingUtil::calc_qi, stub_calc_qi)]
+fn c06_k_next() {
+  let year: isize = kani::any();
+  let index: isize = kani::any();
+  let n: isize = kani::any();
+  kani::assume(year >= 0 && year <= 10000 && index >= 0 && index < 24 && n >= -100000 && n <= 100000);
+  let k = (year as i64) * 24 + index as i64;
+  kani::assume(k + n as i64 >= 0);
+  let t = SolarTerm::from_index(year, index);
+  let r = t.next(n);
+  assert!((r.get_year() as i64) * 24 + r.get_index() as i64 == k + n as i64, "next(n) is the term n places later");
+  assert!(r.get_index() < 24, "index in range");
+  kani::cover!(index == 0 && n == -1, "c06 next reachable (backward across the year)");
+}
+
+#[kani::proof]
+#[kani::stub(alloc::fmt::format, stub_format)]
+#[kani::stub(crate::tyme::util::ShouXingUtil::calc_qi, stub_calc_qi)]
+fn c06_k_parity() {
+  let index: isize = kani::any();
+  kani::assume(index >= 0 && index < 24);
+  let t = SolarTerm::from_index(2000, index);
+  assert!(t.is_jie() == (index % 2 == 1) && t.is_qi() == (index % 2 == 0), "jie <=> odd index");
+  kani::cover!(index == 3, "parity reachable");
+}
